@@ -10,7 +10,7 @@ import json
 
 import core
 import fmt_rt
-from p_c06 import Fwd, round_trip, check_types, chain_stage
+from p_c06 import Fwd, round_trip, check_types, chain_stage, frame_kind
 
 D = decimal.Decimal
 
@@ -62,10 +62,17 @@ def compare_features(chk, viol, cfg, rng, orig, back, mk_info):
                 continue            # frame identity is C06's subject
             fb = bframes[k]
             info = lambda s=None: mk_info(fo, s)
+            kind = frame_kind(fo, {fmt_rt.fkey(x): x for x in odb.frames})
+            known_keys = {x.get("key") for x in chk.known}
+            fv = viol if not kind else (lambda key, *rest, kind=kind: viol(key if key in known_keys else key + "@" + kind, *rest))
+            if fo.is_j1939:
+                chk.count("frame-kind:j1939")
+            if any(fmt_rt.fkey(x) == (k[0], not k[1]) for x in odb.frames):
+                chk.count("frame-kind:id-twin (same number, other format)")
             nontriv = False
             frame_ok = True
             if "length" in car and int(fo.size) != int(fb.size):
-                viol(cfg.kbase + "-length", "frame length changed", info(), int(fo.size), int(fb.size))
+                fv(cfg.kbase + "-length", "frame length changed", info(), int(fo.size), int(fb.size))
                 frame_ok = False
             if "senders" in car and sorted(set(fo.transmitters)) != sorted(set(fb.transmitters)):
                 key = cfg.kbase + "-senders"
@@ -73,9 +80,9 @@ def compare_features(chk, viol, cfg, rng, orig, back, mk_info):
                 sig_recv = {r for s in fo.signals for r in s.receivers}
                 if cfg.fmt == "arxml" and lost and lost <= sig_recv and set(fb.transmitters) <= set(fo.transmitters):
                     key = "arxml-sender-also-receiver"
-                viol(key, "frame senders changed", info(), list(fo.transmitters), list(fb.transmitters))
+                fv(key, "frame senders changed", info(), list(fo.transmitters), list(fb.transmitters))
             if "first_sender" in car and list(fb.transmitters) != list(fo.transmitters)[:1]:
-                viol(cfg.kbase + "-first-sender", "first sender not preserved", info(), list(fo.transmitters)[:1], list(fb.transmitters))
+                fv(cfg.kbase + "-first-sender", "first sender not preserved", info(), list(fo.transmitters)[:1], list(fb.transmitters))
             if len(fo.transmitters) > 1:
                 chk.count("multi-sender-frames")
             got = {}
@@ -84,13 +91,13 @@ def compare_features(chk, viol, cfg, rng, orig, back, mk_info):
             sig_ok = {}
             mux_ok = True
             if "xmux" in car and bool(fo.is_complex_multiplexed) != bool(fb.is_complex_multiplexed):
-                viol(cfg.kbase + "-xmux-flag", "is_complex_multiplexed changed", info(), bool(fo.is_complex_multiplexed), bool(fb.is_complex_multiplexed))
+                fv(cfg.kbase + "-xmux-flag", "is_complex_multiplexed changed", info(), bool(fo.is_complex_multiplexed), bool(fb.is_complex_multiplexed))
                 mux_ok = False
             for so in fo.signals:
                 n = fmt_rt.expected_signal_name(cfg, fo, so)
                 if n not in got:
                     if "mux" in car and so.mux_val is not None:
-                        viol(cfg.kbase + "-mux-group-signal-lost", "signal of multiplex group %s is missing after the round trip" % so.mux_val,
+                        fv(cfg.kbase + "-mux-group-signal-lost", "signal of multiplex group %s is missing after the round trip" % so.mux_val,
                              info(n), n, sorted(got))
                         mux_ok = False
                     continue        # otherwise C06's subject
@@ -102,10 +109,10 @@ def compare_features(chk, viol, cfg, rng, orig, back, mk_info):
                         key = cfg.kbase + "-type-float"
                         if cfg.fmt == "sym" and so.is_float and so.is_signed:
                             key = "sym-float-signed"
-                        viol(key, "float type changed", info(n), bool(so.is_float), bool(sb.is_float))
+                        fv(key, "float type changed", info(n), bool(so.is_float), bool(sb.is_float))
                         ok = False
                     elif not so.is_float and bool(so.is_signed) != bool(sb.is_signed):
-                        viol(cfg.kbase + "-type-signed", "signedness changed (width %d)" % so.size, info(n), bool(so.is_signed), bool(sb.is_signed))
+                        fv(cfg.kbase + "-type-signed", "signedness changed (width %d)" % so.size, info(n), bool(so.is_signed), bool(sb.is_signed))
                         ok = False
                     chk.count("type:%s" % ("float%d" % so.size if so.is_float else ("signed" if so.is_signed else "unsigned")))
                 if "scaling" in car:
@@ -121,7 +128,7 @@ def compare_features(chk, viol, cfg, rng, orig, back, mk_info):
                             key = cfg.kbase + "-scaling"
                             if nd > 6 and deq(b, D("%g" % a)):
                                 key = cfg.fmt + "-scaling-digits"
-                            viol(key, "%s is not the same decimal number" % which, info(n), str(a), str(b))
+                            fv(key, "%s is not the same decimal number" % which, info(n), str(a), str(b))
                             ok = False
                 if "values" in car and not sym_mux:
                     a = {int(x): y for x, y in so.values.items()}
@@ -134,14 +141,14 @@ def compare_features(chk, viol, cfg, rng, orig, back, mk_info):
                             key = "sym-values-enum-name-collision"
                         elif cfg.fmt == "kcd" and so.is_multiplexer and b == {} and not any(x.mux_val is not None for x in fo.signals):
                             key = "kcd-lone-multiplexer-values"     # <Multiplex> without any MuxGroup: Value/LabelSet are never appended
-                        viol(key, "value table changed", info(n), a, b)
+                        fv(key, "value table changed", info(n), a, b)
                         ok = False
                 if "unit" in car:
                     if so.unit != sb.unit:
                         key = cfg.kbase + "-unit"
                         if so.unit == "" and sb.unit is None:
                             key = cfg.fmt + "-unit-empty-none"
-                        viol(key, "unit changed", info(n), so.unit, sb.unit)
+                        fv(key, "unit changed", info(n), so.unit, sb.unit)
                         ok = False
                 if "mux" in car:
                     a = (bool(so.is_multiplexer), so.mux_val)
@@ -155,14 +162,14 @@ def compare_features(chk, viol, cfg, rng, orig, back, mk_info):
                         key = cfg.kbase + ("-mux-role" if a[0] != b[0] else "-mux-selector")
                         if b == (False, None):
                             key = cfg.kbase + "-mux-lost"
-                        viol(key, "multiplexer role / selector value changed", info(n), list(a), list(b))
+                        fv(key, "multiplexer role / selector value changed", info(n), list(a), list(b))
                         ok = False
                         mux_ok = False
                     if "xmux" in car and fo.is_complex_multiplexed:
                         a = ([list(map(int, r)) for r in so.mux_val_grp], so.muxer_for_signal)
                         b = ([list(map(int, r)) for r in sb.mux_val_grp], sb.muxer_for_signal)
                         if a != b:
-                            viol(cfg.kbase + "-xmux", "extended multiplexing (selector ranges / multiplexer reference) changed", info(n), list(a), list(b))
+                            fv(cfg.kbase + "-xmux", "extended multiplexing (selector ranges / multiplexer reference) changed", info(n), list(a), list(b))
                             ok = False
                             mux_ok = False
                 if "receivers" in car:
@@ -176,7 +183,7 @@ def compare_features(chk, viol, cfg, rng, orig, back, mk_info):
                             key = "dbf-receivers-empty-string"
                         elif cfg.fmt == "kcd" and len(names_count.get(so.name, [])) > 1:
                             key = "kcd-receivers-merged-same-name"
-                        viol(key, "signal receivers changed", info(n), a, b)
+                        fv(key, "signal receivers changed", info(n), a, b)
                 sig_ok[so.name] = (ok, n)
             # ---- consequence: physical and named values of payloads ----
             phys_ok = {"type", "scaling"} <= car
@@ -193,12 +200,12 @@ def compare_features(chk, viol, cfg, rng, orig, back, mk_info):
                         chk.count("decode-original-raises")
                         continue
                     if isinstance(dbk, Exception):
-                        viol(cfg.kbase + "-decode-raises", "Frame.decode of the re-read frame raises", info() | {"payload": data.hex()}, "decoded", repr(dbk))
+                        fv(cfg.kbase + "-decode-raises", "Frame.decode of the re-read frame raises", info() | {"payload": data.hex()}, "decoded", repr(dbk))
                         break
                     if "mux" in car and mux_ok:
                         exp_names = sorted(sig_ok[x][1] for x in do if x in sig_ok)
                         if exp_names != sorted(x for x in dbk if x in [v[1] for v in sig_ok.values()]):
-                            viol(cfg.kbase + "-decode-selection", "another set of signals is decoded for this payload", info() | {"payload": data.hex()},
+                            fv(cfg.kbase + "-decode-selection", "another set of signals is decoded for this payload", info() | {"payload": data.hex()},
                                  exp_names, sorted(dbk))
                             break
                     stop = False
@@ -219,13 +226,13 @@ def compare_features(chk, viol, cfg, rng, orig, back, mk_info):
                             continue
                         chk.count("payload-values-compared")
                         if phys_ok and not same_value(pa, pb):
-                            viol(cfg.kbase + "-phys-value", "payload decodes to another physical value", info(name) | {"payload": data.hex()}, str(pa), str(pb))
+                            fv(cfg.kbase + "-phys-value", "payload decodes to another physical value", info(name) | {"payload": data.hex()}, str(pa), str(pb))
                             stop = True
                         if (named_ok or xls_named) and (isinstance(na, str) != isinstance(nb, str) or (isinstance(na, str) and na != nb)):
-                            viol(cfg.kbase + "-named-value", "payload decodes to another named value", info(name) | {"payload": data.hex()}, str(na), str(nb))
+                            fv(cfg.kbase + "-named-value", "payload decodes to another named value", info(name) | {"payload": data.hex()}, str(na), str(nb))
                             stop = True
                         elif named_ok and not isinstance(na, str) and not same_value(na, nb):
-                            viol(cfg.kbase + "-named-value", "payload decodes to another named value", info(name) | {"payload": data.hex()}, str(na), str(nb))
+                            fv(cfg.kbase + "-named-value", "payload decodes to another named value", info(name) | {"payload": data.hex()}, str(na), str(nb))
                             stop = True
                     if stop:
                         break
